@@ -189,8 +189,10 @@ func (r *rd) vec24() []byte { return clone(r.take(r.u24())) }
 
 func clone(b []byte) []byte { return append([]byte{}, b...) }
 
-func put8(o []byte, v []byte) []byte  { return append(append(o, byte(len(v))), v...) }
-func put16(o []byte, v []byte) []byte { return append(binary.BigEndian.AppendUint16(o, uint16(len(v))), v...) }
+func put8(o []byte, v []byte) []byte { return append(append(o, byte(len(v))), v...) }
+func put16(o []byte, v []byte) []byte {
+	return append(binary.BigEndian.AppendUint16(o, uint16(len(v))), v...)
+}
 func put24(o []byte, v []byte) []byte {
 	n := len(v)
 	return append(append(o, byte(n>>16), byte(n>>8), byte(n)), v...)
